@@ -25,7 +25,20 @@ def gen(rnd):
     if rnd.random() < 0.3:
         A["static"] = [{"v": "s:" + s, "m": 1} for s in rnd.sample(anngen.STATICS_MASSY, rnd.choice([1, 2]))]
     if rnd.random() < 0.25:
-        A["isotope"] = [{"v": "s:" + rnd.choice(["13C", "15N", "18O", "D"]), "m": 1}]
+        # one label, or two of different elements (each applies to its own element)
+        A["isotope"] = [{"v": "s:" + x, "m": 1} for x in rnd.sample(["13C", "15N", "18O", "D"], rnd.choice([1, 1, 2]))]
+    if rnd.random() < 0.15:
+        # two modifications that nearly cancel on one residue or terminus: the net shift is below 1e-4
+        # (written by Python in exponent form)
+        name, neg = rnd.choice([("Oxidation", "-15.9949"), ("Acetyl", "-42.0106"), ("Phospho", "-79.9663"),
+                                ("Methyl", "-14.01564"), ("Carbamidomethyl", "-57.02147")])
+        pair = [{"v": "s:" + name, "m": 1}, {"v": "f:" + neg, "m": 1}]
+        where = rnd.choice(["res", "res", "nterm", "cterm"])
+        if where == "res":
+            p_ = rnd.randrange(n)
+            A["internal"] = sorted([e for e in A["internal"] if e["i"] != p_] + [{"i": p_, "mods": pair}], key=lambda e: e["i"])
+        else:
+            A[where] = pair
     if rnd.random() < 0.3:
         A["charge"] = rnd.choice([1, 2, 3, -1])
         if rnd.random() < 0.4:
@@ -38,6 +51,14 @@ def gen(rnd):
 def condense_event(pp, tid, A, plus, prec, via):
     text = anngen.render(A)
     src = text if via == "str" else anngen.build(pp, A)
+    if via == "str":
+        project.maybe_poison(pp, text, tid)
+    m_first = None
+    if via == "ann" and int(tid[1:].split(".")[0] or 0) % 4 == 0:
+        # the object is weighed first (as one does to compare masses), then condensed
+        o0, m_first = call(lambda: pp.mass(src, charge=0))
+        if o0 != "ret":
+            m_first = None
     o, res = call(lambda: pp.condense_to_mass_mods(src, include_plus=plus, precision=prec))
     if o == "ret" and not isinstance(res, str):
         o, res = "ret_not_a_string:" + type(res).__name__, ""
@@ -61,6 +82,8 @@ def condense_event(pp, tid, A, plus, prec, via):
         o3, m = call(lambda: (pp.mass(text, charge=0), pp.mass(res, charge=0)))
         if o3 == "ret":
             ev["massIn"], ev["massOut"] = fix(m[0]), fix(m[1])
+            if m_first is not None and abs(m_first - m[0]) > 1e-9:
+                ev["out"] = "mass_of_the_object_differs_from_mass_of_its_text"
         else:
             ev["out"] = "mass_of_input_or_result_" + o3
     return ev
